@@ -1,7 +1,7 @@
 """C04 - no call sequence corrupts, over-reads or leaks memory (sanitizers + allocation conservation)."""
 import os, re, shutil, subprocess
 from concurrent.futures import ThreadPoolExecutor
-from .. import sweeprun, histrun, common, build
+from .. import sweeprun, histrun, common, build, failrun
 
 
 def line_coverage():
@@ -111,6 +111,9 @@ def main(tier):
     fz = {}
     for target, runs, ml in (('fuzz_parser', 30000 if tier == 'quick' else 2000000, 160), ('fuzz_crystalfile', 15000 if tier == 'quick' else 1000000, 3000)):
         fz[target] = fuzz(ck, target, runs, ml, 4 if tier == 'quick' else 8)
+    # (d') allocation failpoints: where the library itself reports XRL_ERROR_MEMORY (its checked allocations) nothing may stay allocated
+    fr = failrun.run('shipped')
+    failrun.report(ck, fr, 'C04')
     # (e) reach: line coverage of the library sources under the sweep + histories (thorough only; evidence, not a verdict)
     reach = line_coverage() if tier == 'thorough' else {}
     if tot['calls'] < 50000 or len(fns) < 100:
@@ -124,6 +127,10 @@ def main(tier):
                samples=samples + [dict(history_objects=k[0], count=v) for k, v in sorted(hops.items())][:12], functions=len(fns),
                line_coverage_percent=reach, fuzz_executions={k: v[0] for k, v in fz.items()}, fuzz_features_covered={k: v[1] for k, v in fz.items()},
                histories=htot['histories'], history_steps=htot['steps'], valgrind_histories=200 if tier == 'quick' else 2000, error_paths=len(paths), leak_rechecks=tot['leakchecks'],
-               sanitizer='gcc -fsanitize=address,undefined -fno-sanitize-recover=all', configs=['shipped', 'kissel'])
+               sanitizer='gcc -fsanitize=address,undefined -fno-sanitize-recover=all', configs=['shipped', 'kissel'],
+               allocation_failpoints=fr['summary'])
     return ck.finish(cov, ['red-zone sanitizers miss non-adjacent overflows and reuse after quarantine',
+                           'allocation failpoints judge only the paths on which the library reports XRL_ERROR_MEMORY; most of its allocations are unchecked '
+                           '(the child dies or returns an object with NULL fields): resource exhaustion is not among the inputs the property quantifies over, '
+                           'those injections are counted (c_died_unchecked_allocation, c_tolerated) and not judged',
                            'held = no report on the executions above, not memory safety'])
